@@ -70,6 +70,7 @@ def get_start_size__count__c2c_expansion(length, count, c2c_expansion):
     """Calculates start size from given count and cell-to-cell expansion ratio"""
     _validate_length(length)
     _validate_count(count, ">=1")
+    _validate_c2c_expansion(c2c_expansion)
 
     if abs(c2c_expansion - 1) > constants.TOL:
         return length * (1 - c2c_expansion) / (1 - c2c_expansion**count)
@@ -112,6 +113,7 @@ def get_count__end_size__c2c_expansion(length, end_size, c2c_expansion):
     """Calculates count from given end size and cell-to-cell expansion ratio"""
     _validate_length(length)
     _validate_start_end_size(end_size, "end")
+    _validate_c2c_expansion(c2c_expansion)
 
     if abs(c2c_expansion - 1) > constants.TOL:
         count = np.log(1 / (1 + length / end_size * (1 - c2c_expansion) / c2c_expansion)) / np.log(c2c_expansion)
@@ -130,6 +132,7 @@ def get_count__total_expansion__c2c_expansion(length, total_expansion, c2c_expan
     """Calculates count from total expansion ratio and cell-to-cell expansion ratio"""
     _validate_length(length)
     _validate_total_expansion(total_expansion)
+    _validate_c2c_expansion(c2c_expansion)
 
     if abs(c2c_expansion - 1) <= constants.TOL:
         raise ValueError(
@@ -241,6 +244,7 @@ def get_total_expansion__count__c2c_expansion(length, count, c2c_expansion):
     """Calculates total expansion ratio from given count and cell-to-cell expansion ratio"""
     _validate_length(length)
     _validate_count(count, ">=1")
+    _validate_c2c_expansion(c2c_expansion)
 
     return c2c_expansion ** (count - 1)
 
